@@ -11,7 +11,7 @@
                                                       -> client arguments; then _generate_enums)
    A class definition is an abstract payload A (its source text in the tie). *)
 From Coq Require Import List String Bool Arith.
-From AC Require Import Base.Sexp.
+From AC Require Import Base.Strs Base.Sexp Model.Names.
 Import ListNotations.
 
 Definition mem (x : string) (l : list string) : bool := existsb (String.eqb x) l.
@@ -147,6 +147,52 @@ Definition module_imports {A} (p : pkg A) (retained : list (string * A)) : list 
   if autoflake_gives_up p retained then candidates p retained
   else filter (fun it => mem it (needs_of p retained)) (candidates p retained).
 
+(* ---- what a class body refers to, DERIVED from its fields (input_fields.parse_input_field_type,
+   scalars.generate_input_scalar_annotation, parse_input_field_default_value, _process_field_value) ----
+   A field annotation is Optional[...] at every nullable level, List[...] at every list level, around:
+   a builtin Python type, Any (unconfigured custom scalar), Upload, an enum name, a quoted input class name, or a
+   configured custom scalar: its type name, wrapped in Annotated[type, PlainSerializer(serialize)] when a
+   serializer is configured.  Field(...) appears when the Python name differs from the GraphQL name (alias) or the
+   default is a list / object literal (default_factory). *)
+Local Open Scope string_scope.
+Inductive fbase :=
+| BPlain | BAny | BUpload
+| BEnum (e : string) | BInput (n : string)
+| BCustom (ty ser par : option string) (has_ser : bool).   (* import items of the dotted paths *)
+Record ifield := { if_name : string; if_nullable : bool; if_list : bool; if_base : fbase; if_coll_default : bool }.
+
+Definition opt_item (o : option string) : list string := match o with Some x => [x] | None => [] end.
+Definition input_flags (snake : bool) : pflags := {| f_snake := snake; f_trim := true; f_reserved := true |}.
+Definition aliased (snake : bool) (n : string) : bool :=
+  negb (String.eqb (l2s (process_name (input_flags snake) (s2l n))) n).
+
+Definition base_needs (b : fbase) : list string :=
+  match b with
+  | BPlain | BInput _ => []
+  | BAny => ["typing:Any"]
+  | BUpload => [".base_model:Upload"]
+  | BEnum e => [enum_item e]
+  | BCustom ty ser _ has_ser =>
+      (opt_item ty ++ (if has_ser then "typing:Annotated" :: "pydantic:PlainSerializer" :: opt_item ser else []))%list
+  end.
+Definition field_needs (snake : bool) (f : ifield) : list string :=
+  ((if if_nullable f then ["typing:Optional"] else []) ++ (if if_list f then ["typing:List"] else []) ++
+   base_needs (if_base f) ++
+   (if aliased snake (if_name f) || if_coll_default f then ["pydantic:Field"] else []))%list.
+Definition field_deps (f : ifield) : list string := match if_base f with BInput n => [n] | _ => [] end.
+Definition field_enums (f : ifield) : list string := match if_base f with BEnum e => [e] | _ => [] end.
+Definition field_scalar_items (f : ifield) : list string :=
+  match if_base f with BCustom ty ser par _ => (opt_item ty ++ opt_item ser ++ opt_item par)%list | _ => [] end.
+
+Definition derive {A} (snake : bool) (name : string) (body : A) (fs : list ifield) : input_def A :=
+  {| i_name := name; i_deps := flat_map field_deps fs; i_enums := flat_map field_enums fs; i_body := body;
+     i_needs := ".base_model:BaseModel" :: flat_map (field_needs snake) fs;
+     i_scalar_items := flat_map field_scalar_items fs |}.
+
+Definition std_preamble : list string :=
+  ["typing:Optional"; "typing:Any"; "typing:Union"; "typing:List"; "typing:Annotated";
+   "pydantic:Field"; "pydantic:PlainSerializer"; ".base_model:BaseModel"; ".base_model:Upload"].
+
 (* the whole pruning pipeline: (retained input classes, retained enum classes) *)
 Definition generate {A} (p : pkg A) (all_inputs all_enums : bool)
   : option (list (string * A) * list (string * A)) :=
@@ -181,6 +227,38 @@ Definition dInput (e : sexp) : option (input_def string) :=
   | _ => None
   end.
 
+Definition dBase (e : sexp) : option fbase :=
+  match e with
+  | A "plain" => Some BPlain
+  | A "any" => Some BAny
+  | A "upload" => Some BUpload
+  | L [A "enum"; A x] => Some (BEnum x)
+  | L [A "input"; A x] => Some (BInput x)
+  | L [A "custom"; ty; se; pa; hs] =>
+      match dOpt dStr ty, dOpt dStr se, dOpt dStr pa, dB hs with
+      | Some a, Some b, Some c, Some d => Some (BCustom a b c d)
+      | _, _, _, _ => None end
+  | _ => None
+  end.
+Definition dField (e : sexp) : option ifield :=
+  match e with
+  | L [A n; nu; li; b; co] =>
+      match dB nu, dB li, dBase b, dB co with
+      | Some x, Some y, Some z, Some w =>
+          Some {| if_name := n; if_nullable := x; if_list := y; if_base := z; if_coll_default := w |}
+      | _, _, _, _ => None end
+  | _ => None
+  end.
+(* (derived name body snake (field ...)) : an input class given by its fields *)
+Definition dInputAny (e : sexp) : option (input_def string) :=
+  match e with
+  | L [A "derived"; A n; A body; sn; fs] =>
+      match dB sn, dList dField fs with
+      | Some b, Some f => Some (derive b n body f)
+      | _, _ => None end
+  | _ => dInput e
+  end.
+
 Definition dEnumDef (e : sexp) : option (string * string) :=
   match e with L [A n; A b] => Some (n, b) | _ => None end.
 
@@ -198,7 +276,7 @@ Definition run_prune (e : sexp) : sexp :=
       | Some gr, Some r => sOpt sStrs (closure_opt gr r)
       | _, _ => sErr "closure args" end
   | L [A "generate"; ins; ens; ai; ae; re; fe; fi; fen; cu; bi; be; pre] =>
-      match dList dInput ins, dList dEnumDef ens, dStrs ai, dStrs ae, dStrs re, dStrs fe, dB fi, dB fen,
+      match dList dInputAny ins, dList dEnumDef ens, dStrs ai, dStrs ae, dStrs re, dStrs fe, dB fi, dB fen,
             dB cu, dStrs bi, dStrs be, dStrs pre with
       | Some i, Some en, Some a1, Some a2, Some r, Some f, Some b1, Some b2, Some c, Some x1, Some x2, Some pr =>
           let p := {| p_inputs := i; p_enums := en; p_arg_inputs := a1; p_arg_enums := a2;
@@ -210,5 +288,12 @@ Definition run_prune (e : sexp) : sexp :=
           | None => A "none"
           end
       | _, _, _, _, _, _, _, _, _, _, _, _ => sErr "generate args" end
+  | L [A "derive"; sn; A n; fs] =>
+      match dB sn, dList dField fs with
+      | Some b, Some f =>
+          let d := derive b n "" f in
+          L [sStrs (i_deps d); sStrs (i_enums d); sStrs (i_needs d); sStrs (i_scalar_items d)]
+      | _, _ => sErr "derive args" end
+  | L [A "std_preamble"] => sStrs std_preamble
   | _ => sErr "prune: bad command"
   end.
